@@ -381,6 +381,7 @@ func chunkContent(id int) string {
 	return s
 }
 
+var ansiRe = regexp.MustCompile("\x1b\\[[0-9;]*m")
 var chunkRe = regexp.MustCompile(`^<c(\d+)>x*`)
 var jsonChunkRe = regexp.MustCompile(`^\{"c":(\d+)\}\n`)
 
@@ -476,6 +477,7 @@ func (w *recWriter) take() [][]byte {
 
 type site struct {
 	hkind, thr int
+	opt        int // bit 0: addSource, bit 1: colorful
 	mux        *httpd.Mux
 	out        *recWriter
 	srv        *httptest.Server
@@ -487,9 +489,9 @@ type site struct {
 	active     atomic.Int64
 }
 
-func newSite(hkind, thr int) *site {
-	s := &site{hkind: hkind, thr: thr, out: &recWriter{}, srvLog: &recWriter{}, specs: map[int]*reqSpec{}, tidSeen: map[string]int{}}
-	opts := logger.NewOptions(slogLevel(thr), false, false)
+func newSite(hkind, thr, opt int) *site {
+	s := &site{hkind: hkind, thr: thr, opt: opt, out: &recWriter{}, srvLog: &recWriter{}, specs: map[int]*reqSpec{}, tidSeen: map[string]int{}}
+	opts := logger.NewOptions(slogLevel(thr), opt&2 != 0, opt&1 != 0)
 	var h logger.Handler
 	switch hkind {
 	case 0:
@@ -913,6 +915,9 @@ func (rn *runner) batch(s *site, specs []*reqSpec) {
 		byNo[sp.no] = sp
 	}
 	for _, b := range raw {
+		if s.opt&2 != 0 {
+			b = ansiRe.ReplaceAll(b, nil)
+		}
 		d := decodeRecord(s.hkind, b)
 		if !d.ok {
 			rn.violation("undecodable-record", strconv.Itoa(s.hkind), hk.Hx(b))
@@ -985,7 +990,7 @@ func firstLine(b []byte) []byte {
 }
 
 func (rn *runner) emit(s *site, sp *reqSpec, inflight int) {
-	f := []string{"E", strconv.Itoa(sp.mode), strconv.Itoa(s.hkind), strconv.Itoa(s.thr), strconv.Itoa(sp.route),
+	f := []string{"E", strconv.Itoa(sp.mode), strconv.Itoa(s.hkind + 10*s.opt), strconv.Itoa(s.thr), strconv.Itoa(sp.route),
 		strconv.Itoa(sp.method), strconv.Itoa(sp.no)}
 	var model []action
 	ctSet := false
@@ -1017,6 +1022,7 @@ func (rn *runner) emit(s *site, sp *reqSpec, inflight int) {
 	rn.stats["cases"]++
 	rn.stats[fmt.Sprintf("mode_%d", sp.mode)]++
 	rn.stats[fmt.Sprintf("hkind_%d", s.hkind)]++
+	rn.stats[fmt.Sprintf("options_addSource%v_colorful%v", s.opt&1 != 0, s.opt&2 != 0)]++
 	rn.stats[fmt.Sprintf("threshold_%d", s.thr)]++
 	rn.stats[fmt.Sprintf("route_matched_%d", sp.route)]++
 	rn.stats[fmt.Sprintf("inflight_le_%d", ceilPow2(inflight))]++
@@ -1128,10 +1134,16 @@ func run(e *hk.Env) error {
 	rn.rng = r
 
 	thresholds := []int{0, 4, 8, 12, 16}
-	sites := map[[2]int]*site{}
+	// options (addSource, colorful) vary at the Info threshold only
+	sites := map[[3]int]*site{}
 	for hkind := 0; hkind < 3; hkind++ {
 		for _, t := range thresholds {
-			sites[[2]int{hkind, t}] = newSite(hkind, t)
+			sites[[3]int{hkind, t, 0}] = newSite(hkind, t, 0)
+			if t == 4 {
+				for opt := 1; opt < 4; opt++ {
+					sites[[3]int{hkind, t, opt}] = newSite(hkind, t, opt)
+				}
+			}
 		}
 	}
 	defer func() {
@@ -1183,10 +1195,12 @@ func run(e *hk.Env) error {
 			}
 			if json.Unmarshal(b, &p) == nil {
 				if hkind, thr, sc, ok := parseCase(p.Case); ok {
-					s := sites[[2]int{hkind, thr}]
+					opt := hkind / 10
+					hkind %= 10
+					s := sites[[3]int{hkind, thr, opt}]
 					if s == nil {
-						s = newSite(hkind, thr)
-						sites[[2]int{hkind, thr}] = s
+						s = newSite(hkind, thr, opt)
+						sites[[3]int{hkind, thr, opt}] = s
 					}
 					for i := 0; i < 40; i++ {
 						var specs []*reqSpec
@@ -1203,8 +1217,9 @@ func run(e *hk.Env) error {
 	}
 
 	inflight := []int{1, 2, 3, 4, 8, 16, 32, 64}
-	pending := map[[2]int][]*reqSpec{}
-	flush := func(key [2]int, force bool) {
+	optCounter := 0
+	pending := map[[3]int][]*reqSpec{}
+	flush := func(key [3]int, force bool) {
 		for {
 			q := pending[key]
 			want := inflight[r.Intn(len(inflight))]
@@ -1219,7 +1234,12 @@ func run(e *hk.Env) error {
 		}
 	}
 	add := func(hkind, thr, mode int, sc []action) {
-		key := [2]int{hkind, thr}
+		opt := 0
+		if thr == 4 {
+			optCounter++
+			opt = optCounter % 4
+		}
+		key := [3]int{hkind, thr, opt}
 		pending[key] = append(pending[key], rn.newSpec(r, mode, sanitize(sc)))
 		if len(pending[key]) >= 64 {
 			flush(key, false)
